@@ -522,12 +522,16 @@ func encodeTWCC(w *wr, t *rtcp.TransportLayerCC) error {
 		}
 	}
 	pad := pad4(len(w.b) - start)
-	if (pad > 0) != t.Header.Padding {
-		return ErrOutsideDomain
+	if t.Header.Padding && pad == 0 {
+		return ErrOutsideDomain // the statement: padding flag set only when padding octets exist
 	}
 	if pad > 0 {
-		w.zeros("padding", pad-1)
-		w.u8("padding_count", uint8(pad))
+		if t.Header.Padding {
+			w.zeros("padding", pad-1)
+			w.u8("padding_count", uint8(pad))
+		} else {
+			w.zeros("padding", pad) // "zero padding" of the draft, P bit clear
+		}
 	}
 	w.finish(start)
 	if int(t.Header.Length) != (len(w.b)-start)/4-1 {
